@@ -53,6 +53,35 @@ def c03_binding_grid():
             body.append(Say(Call(Id("f"), [DSpread(Id(e1[0]))])))
             body.append(Arr(Id("a"), Id("b"), Id("c")))
             progs.append(("dspread-history", body))
+    # argument lists that are alive at the same time and expand the same array (every length: backing stores with and without spare room)
+    allargs = Fn([], [Argv("\\0")])
+    for n in range(1, 10):
+        xs = Arr(*[Int(k) for k in range(1, n + 1)])
+        for shape in range(6):
+            inner = Call(Id("last"), [Spread(Id("xs")), Int(20)] if shape != 4 else [Int(20), Spread(Id("xs"))])
+            args = {0: [Spread(Id("xs")), Int(10), inner], 1: [Spread(Id("xs")), inner, Int(10)], 2: [Spread(Id("xs")), Int(10), Int(11), inner, Int(12)],
+                    3: [Int(9), Spread(Id("xs")), Int(10), inner], 4: [Spread(Id("xs")), Int(10), inner],
+                    5: [Spread(Id("xs")), Int(10), Call(Id("last"), [Spread(Id("xs")), Int(20), Call(Id("last"), [Spread(Id("xs")), Int(30), Int(31)])])]}[shape]
+            body = [Asg("xs", xs), Asg("pack", Fn(["a"], [Probe(1), Arr(Argv("\\0"), Id("a"), Argv("\\%d" % (n + 1)))])), Asg("last", allargs),
+                    Say(Call(Id("pack"), args)), Say(Id("xs")), Say(PCall(Id("xs"), "m", [Spread(Id("xs")), Int(10), inner]) if False else Id("xs")),
+                    Call(Id("pack"), [Spread(Id("xs")), Int(40)])]
+            progs.append(("spread-nested", body))
+    # closures made from ONE literal at different moments: each keeps the keyword defaults evaluated when it was made
+    for use in range(4):
+        mk = Fn(["n"], [Fn(["p"], [Arr(Id("p"), Id("d"), Id("e"), Argv("\\_"))], kps=[("d", Inf("*", Id("n"), Int(10))), ("e", Inf("+", Id("n"), Id("base")))])])
+        body = [Asg("base", Int(100)), Asg("mk", mk), Asg("a", Call(Id("mk"), [Int(1)])), Asg("base", Int(200)), Asg("b", Call(Id("mk"), [Int(2)]))]
+        if use == 0:
+            body += [Say(Call(Id("a"), [Int(0)])), Say(Call(Id("b"), [Int(0)])), Say(Call(Id("a"), [Int(0)], kw=[("d", Int(5))])), Call(Id("b"), [Int(0)], kw=[("e", Int(6))])]
+        elif use == 1:
+            body += [Say(Call(Id("b"), [Int(0)])), Say(Call(Id("a"), [Int(0)])), Asg("c", Call(Id("mk"), [Int(3)])), Arr(Call(Id("c"), [Int(0)]), Call(Id("a"), [Int(0)]))]
+        elif use == 2:
+            body += [Asg("fs", LCall(Arr(Int(4), Int(5), Int(6)), Fn(["k"], [Call(Id("mk"), [Id("k")])]), main="@")),
+                     Say(LCall(Id("fs"), Fn(["g"], [Call(Id("g"), [Int(0)])]), main="@")), Call(Id("a"), [Int(0)])]
+        else:
+            body += [Asg("o", Obj(("m", Fn(["q"], [Arr(Id("q"), Id("w"))], kps=[("w", Id("base"))], method=True)))), Asg("base", Int(300)),
+                     Asg("o2", Obj(("m", Fn(["q"], [Arr(Id("q"), Id("w"))], kps=[("w", Id("base"))], method=True)))),
+                     Say(PCall(Id("o"), "m", [Int(1)])), Say(PCall(Id("o2"), "m", [Int(1)])), Call(Id("a"), [Int(0)])]
+        progs.append(("closure-kwdefault", body))
     return progs
 
 
@@ -442,6 +471,30 @@ def c04_family(thorough):
                 progs.append((key + ":prop", C04_PRELUDE + [Say(PCall(recv, "ustep", [], main="$", add=add, carg=carg)), Say(Str("after"))]))
                 progs.append((key + ":lit", C04_PRELUDE + [Say(LCall(recv, rlit, main="$", add=add, carg=carg)), Say(Str("after"))]))
                 progs.append((key + ":var", C04_PRELUDE + [Asg("g", rlit), Say(VCall(recv, "g", main="$", add=add, carg=carg)), Say(Str("after"))]))
+    # the same chains written on a continuation line (multi-line chain tokens): every additional context x main context x with / without chain argument
+    for main in ".@$":
+        for add in adds[main]:
+            for carg, ctag in ((None, "-"), (Arr(Int(9)) if main == "@" else Id("acc0") if main == "$" else Int(5), "arg")):
+                if main == "." and ctag == "arg":
+                    continue
+                for pat in ("v0", "nv", "0r"):
+                    if main == "$":
+                        recv, meth, args, lit = Arr(Int(1), Int(0), Int(2)) if pat != "0r" else Arr(Int(2), Int(-1)), "ustep", [], rlit if False else None
+                    else:
+                        recv, meth, args = Arr(*[ELEM[c](i + 1) for i, c in enumerate(pat)]), "um", []
+                    if main == ".":
+                        recv = ELEM[pat[0]](1)
+                    for mlc in (2, 4):
+                        key = f"mlchain:{add}{main}:{pat}:{ctag}:{meth}"
+                        pc = PCall(recv, meth, args, main=main, add=add, carg=carg)
+                        pc["mlc"] = mlc
+                        progs.append((key + ":prop", C04_PRELUDE + [Asg("res", pc), Say(Id("res")), Say(Str("after"))]))
+                        if main != "$":
+                            lc = LCall(recv, Fn(["x"], [PCall(Id("x"), "um", [])]), main=main, add=add, carg=carg)
+                        else:
+                            lc = LCall(recv, Fn(["acc", "x"], [PCall(Id("acc"), "ustep", [Id("x")])]), main=main, add=add, carg=carg)
+                        lc["mlc"] = mlc
+                        progs.append((key + ":lit", C04_PRELUDE + [Asg("res", lc), Say(Id("res")), Say(Str("after"))]))
     # methods called with 2..7 positional arguments in list chains over several elements: every element gets the same arguments
     for nargs in range(2, 8):
         params = [f"a{k}" for k in range(nargs)]
@@ -475,10 +528,12 @@ def c04_family(thorough):
         progs.append((f"reduce:{add}$:keep-pair:0:pair:var", [Asg("g", keep), Say(VCall(Arr(Int(1), Int(2), Int(3)), "g", main="$", add=add, carg=Int(0)))]))
         progs.append((f"reduce:{add}$:keep-pair-closure:0:pair:lit", [Asg("c", LCall(Arr(Int(1), Int(2), Int(3)), Fn(["p"], [Fn([], [Id("p")])]), main="$", add=add, carg=Nil())),
                                                                     Say(Call(Id("c")))]))
-    # other receivers: int, range, obj; operator props with an argument
+    # other receivers: int, range, obj, descendants of arrays with an iterator of their own; operator props with an argument
     plus = Fn(["x"], [PCall(Id("x"), "+", [Int(1)])])
     for rtag, recv in (("int3", Int(3)), ("int0", Int(0)), ("range", Range(Int(2), Int(5), Nil())), ("range-step", Range(Int(7), Int(1), Int(-2))),
-                       ("arr", Arr(Int(4), Int(5)))):
+                       ("arr", Arr(Int(4), Int(5))), ("view-rev", View(Arr(Int(1), Int(2), Int(3)), Arr(Int(30), Int(20), Int(10)))),
+                       ("view-filter", View(Arr(Int(1), Int(2), Int(3)), Arr(Int(2)))), ("view-empty", View(Arr(Int(1)), Arr())),
+                       ("view-longer", View(Arr(), Arr(Int(7), Int(8))))):
         for add in adds["@"]:
             key = f"list:{add}@:{rtag}:-:+"
             progs.append((key + ":prop", [Say(PCall(recv, "+", [Int(1)], main="@", add=add))]))
